@@ -24,7 +24,7 @@ class P(sb.StreamProp):
     USE_MATCHER = False
 
     def gen_scenario(self, rng):
-        want = {'feats': ('nl',), 'lineno': rng.random() < 0.85, 'flavors': ['nr', 'nr', 'r', 'r', 'c99']}
+        want = {'feats': ('nl',), 'lineno': rng.random() < 0.85, 'flavors': ['nr', 'nr', 'r', 'r', 'c99', 'cxx']}
         sc = scenario.gen_scenario(rng, want=want)
         return sc
 
